@@ -162,6 +162,7 @@ class Interp(object):
         self.effect_filter = None          # callable(kind, data) -> bool: counts as effect
         self.class_attr_objs = {}
         self.budget_exceeded = False
+        self.memo = {}
 
     # -- path exploration --------------------------------------------------
     def explore(self, thunk):
@@ -175,6 +176,7 @@ class Interp(object):
             self.dirty = None
             self.desc_cache = {}
             self.class_attr_objs = {}
+            self.memo = {}
             try:
                 v = thunk()
                 path = Path(self.events, 'return', v, list(self.choices))
@@ -812,6 +814,9 @@ class Interp(object):
         if isinstance(fn, Builtin):
             self.calls_resolved += 1
             return self.models.call_builtin(self, fn, args, kwargs, node)
+        if isinstance(fn, External) and exc_name(fn) in BUILTIN_EXC_BASES:
+            self.calls_resolved += 1
+            return ExcValue(exc_name(fn), tuple(args), dict(kwargs), site=node)
         if isinstance(fn, type):
             self.calls_resolved += 1
             return self.models.call_builtin(self, Builtin(fn.__name__), args, kwargs, node)
